@@ -71,6 +71,9 @@ func (n *c07node) arg() interface{} {
 	for k, c := range n.kids {
 		args[k] = c.arg()
 	}
+	// an operand list may be used for more than one expression: the one that is evaluated is
+	// the second one built from it
+	_ = Expr(n.op, args...)
 	return Expr(n.op, args...)
 }
 
@@ -148,6 +151,12 @@ func c07apply1(op string, x c06cell) c06cell {
 		switch op {
 		case "len":
 			return c06cell{typ: "int", i: function.LenS(x.ptr())}
+		case "us":
+			p := c06ufS("us", x.ptr())
+			if p == nil {
+				return c06cell{typ: "string", null: true}
+			}
+			return c06cell{typ: "string", s: *p}
 		case "str":
 			p := function.StrS(x.ptr())
 			if p == nil {
@@ -199,6 +208,7 @@ func c07ctx() *eval.Context {
 	ctx.SetFunc("u1", func(x float64) float64 { return vx.UFFloat("u1f", x) })
 	ctx.SetFunc("u2", func(x, y float64) float64 { return vx.UFFloat("u2f", x, y) })
 	ctx.SetFunc("u2", func(x, y bool) bool { return vx.UFBool("u2b", x, y) })
+	ctx.SetFunc("us", func(x *string) *string { return c06ufS("us", x) })
 	return ctx
 }
 
@@ -207,6 +217,10 @@ func VX_C07_eval() {
 	dst := vx.ParamStr("dst")
 	names := []string{"a", "b", "f", "g", "c", "d", "s", "t", "x"}
 	types_ := []string{"int", "int", "float", "float", "bool", "bool", "string", "string", "int"}
+	if strings.Contains(" "+vx.ParamStr("expr")+" ", " e ") { // an enum operand
+		names = append(names, "e")
+		types_ = append(types_, "enum")
+	}
 	if vx.HasParam("tempcol") { // a user column that looks like a temporary
 		names = append(names, vx.ParamStr("tempcol"))
 		types_ = append(types_, "int")
